@@ -358,8 +358,9 @@ def _exec_c05_links(sc, ctx, env):
                 checkout(p, env.w.localfs, env.tree_obj(op["tree"]), env.odb, force=True, state=st)
                 recorded[op["slot"]] = True
             except Exception:  # noqa: BLE001
-                recorded.pop(op["slot"], None)
-                recorded[op["slot"]] = False
+                # a failed checkout may or may not have touched the path and may
+                # or may not have (re-)recorded it: the model does not know
+                recorded[op["slot"]] = None
         elif o == "user_write":
             p = slot_path(op["slot"])
             if not os.path.lexists(p):
@@ -383,6 +384,8 @@ def _exec_c05_links(sc, ctx, env):
                 if recorded[op["slot"]]:
                     modified_since = True
                 recorded[op["slot"]] = False
+        elif o == "user_delete" and False:
+            pass
         elif o == "user_delete":
             p = slot_path(op["slot"])
             target = os.path.join(p, op["rel"]) if op["rel"] else p
@@ -409,6 +412,8 @@ def _exec_c05_links(sc, ctx, env):
                     why = "never-recorded"
                 elif slot in op["used"]:
                     why = "in-use"
+                elif recorded[slot] is None:
+                    continue
                 elif not recorded[slot]:
                     why = "modified-since-recorded"
                 if why:
